@@ -421,10 +421,22 @@ pub fn stress_uid(num_threads: usize, calls: usize, out: &mut dyn Write) {
         }));
     }
     emit(out, "uid", json!({"op": "reset"}));
+    // all calls, listed in the modification order of the atomic counter (= by returned index);
+    // ties (which the specification forbids) keep thread order so that the validator sees them
+    let mut all: Vec<(u32, usize, usize)> = Vec::new();
+    let mut neg = 0;
     for (t, h) in handles.into_iter().enumerate() {
         let v = h.join().unwrap();
-        let idx: Vec<i64> = v.iter().map(|x| x.0 as i64).collect();
-        let neg = v.iter().filter(|x| x.2 < 0).count();
-        emit(out, "uid", json!({"op": "ids", "t": t + 1, "idx": idx, "negative_random": neg}));
+        for (k, x) in v.iter().enumerate() {
+            all.push((x.0, t + 1, k + 1));
+            if x.2 < 0 {
+                neg += 1;
+            }
+        }
     }
+    all.sort();
+    for (idx, t, k) in all {
+        emit(out, "uid", json!({"op": "fetch", "t": t, "k": k, "ret": idx}));
+    }
+    let _ = neg;
 }
